@@ -142,6 +142,9 @@ pub struct Ca {
     /// additional resources held by this CA (and therefore by all its ancestors)
     #[serde(default)]
     pub extra_res: Option<Res>,
+    /// (roots only) modules of additional TAL URIs, listed after the primary one
+    #[serde(default)]
+    pub ta_alt: Vec<usize>,
 }
 
 #[derive(Serialize, Deserialize, Clone, Debug, PartialEq, Eq)]
@@ -155,6 +158,14 @@ pub struct Step {
     /// stale policy for this run only (overrides cfg.stale)
     #[serde(default)]
     pub stale: Option<u8>,
+    /// root CAs whose TAL file carries a *different* key than their certificate in this run
+    #[serde(default)]
+    pub foreign_tal_key: Vec<usize>,
+    /// what the server offers at a TAL URI in this run: (root, uri index, state) with state
+    /// 0 matching certificate (default), 1 certificate with another key, 2 undecodable bytes,
+    /// 3 expired certificate with the right key, 4 nothing
+    #[serde(default)]
+    pub ta_serve: Vec<(usize, usize, u8)>,
 }
 
 #[derive(Serialize, Deserialize, Clone, Debug, PartialEq, Eq)]
@@ -188,6 +199,22 @@ pub fn cert_uri(sc: &Scenario, ca: usize) -> uri::Rsync {
         Some(p) => ca_dir_uri(sc, p).join(format!("ca{}.cer", ca).as_bytes()).unwrap(),
         None => uri::Rsync::from_string(format!("{}ta{}.cer", module_uri(sc.cas[ca].module), ca)).unwrap(),
     }
+}
+
+/// Number of TAL URIs of a root.
+pub fn ta_uri_count(sc: &Scenario, ca: usize) -> usize {
+    1 + sc.cas[ca].ta_alt.len()
+}
+/// Module and file name of TAL URI `u` of root `ca`.
+pub fn ta_location(sc: &Scenario, ca: usize, u: usize) -> (usize, String) {
+    if u == 0 {
+        (sc.cas[ca].module, format!("ta{}.cer", ca))
+    } else {
+        (sc.cas[ca].ta_alt[u - 1], format!("ta{}-{}.cer", ca, u))
+    }
+}
+pub fn ta_serve_state(step: &Step, ca: usize, u: usize) -> u8 {
+    step.ta_serve.iter().rev().find(|(c, uu, _)| *c == ca && *uu == u).map(|x| x.2).unwrap_or(0)
 }
 
 /// Resources owned by a CA itself (its slot space).
@@ -278,6 +305,11 @@ pub fn obj_items(ca: usize, v: usize, k: usize, obj: &Obj) -> Vec<MItem> {
                     let a = Ipv4Addr::new(10, ca as u8, so, 128 + e * 16);
                     res.push(MItem::Origin(MOrigin::new(IpAddr::V4(a), 28, None, asn)));
                 }
+            }
+            // some ROAs list their more specific (longer) prefixes before the slot prefix, so that a
+            // length limit hits entries in the middle of a ROA, not only its tail
+            if maxlen_delta == 1 && res.len() > 1 {
+                res.rotate_left(1);
             }
             res
         }
@@ -433,9 +465,21 @@ impl World {
     }
 
     fn write_tals(&self) {
+        self.write_tals_with(&[])
+    }
+
+    /// Writes the TAL files; roots listed in `foreign` get a TAL with another key.
+    pub fn write_tals_with(&self, foreign: &[usize]) {
         for (i, ca) in self.sc.cas.iter().enumerate() {
             if ca.parent.is_none() {
-                let text = gen::tal_text(&[cert_uri(&self.sc, i).to_string()], ca.key);
+                let key = if foreign.contains(&i) { gen::N_CA_KEYS - 1 - (i % 8) } else { ca.key };
+                let uris: Vec<String> = (0..ta_uri_count(&self.sc, i))
+                    .map(|u| {
+                        let (m, name) = ta_location(&self.sc, i, u);
+                        format!("{}{}", module_uri(m), name)
+                    })
+                    .collect();
+                let text = gen::tal_text(&uris, key);
                 std::fs::write(self.dir.path().join("tals").join(format!("tal{}.tal", i)), text).unwrap();
             }
         }
@@ -624,6 +668,7 @@ impl World {
 
     /// Publishes the step's versions to the fake rsync server root.
     pub fn publish(&mut self, step: &Step) {
+        self.write_tals_with(&step.foreign_tal_key);
         let srv = self.srv();
         let _ = std::fs::remove_dir_all(&srv);
         std::fs::create_dir_all(&srv).unwrap();
@@ -632,7 +677,21 @@ impl World {
             let moddir = srv.join(host(ca.module)).join("repo");
             std::fs::create_dir_all(&moddir).unwrap();
             if ca.parent.is_none() {
-                std::fs::write(moddir.join(format!("ta{}.cer", i)), &self.ca_certs[&i]).unwrap();
+                for u in 0..ta_uri_count(&sc, i) {
+                    let (m, name) = ta_location(&sc, i, u);
+                    let dir = srv.join(host(m)).join("repo");
+                    std::fs::create_dir_all(&dir).unwrap();
+                    let bytes: Option<Bytes> = match ta_serve_state(step, i, u) {
+                        0 => Some(self.ca_certs[&i].clone()),
+                        1 => Some(self.ta_variant(i, true, false)),
+                        2 => Some(Bytes::from_static(b"\x30\x82 this is no certificate")),
+                        3 => Some(self.ta_variant(i, false, true)),
+                        _ => None,
+                    };
+                    if let Some(b) = bytes {
+                        std::fs::write(dir.join(name), b).unwrap();
+                    }
+                }
             }
             let v = step.publish.get(i).copied().unwrap_or(0).min(ca.versions.len().saturating_sub(1));
             if ca.versions.is_empty() {
@@ -649,6 +708,14 @@ impl World {
             let _ = std::fs::create_dir_all(srv.join(host(*m)));
             std::fs::write(srv.join(host(*m)).join("repo.fail"), b"").unwrap();
         }
+    }
+
+    /// A trust anchor certificate for root `ca` with another key and/or expired.
+    pub fn ta_variant(&self, ca: usize, other_key: bool, expired: bool) -> Bytes {
+        let sc = &self.sc;
+        let key = if other_key { gen::N_CA_KEYS - 9 - (ca % 8) } else { sc.cas[ca].key };
+        let val = if expired { gen::validity(self.now, -86400 * 30, -3600) } else { gen::validity(self.now, -86400, sc.cas[ca].not_after) };
+        gen::issue_ta(key, &cert_res(sc, ca), val, &ca_dir_uri(sc, ca), &mft_uri(sc, ca), None, 1)
     }
 
     /// Damages what the fake server offers for one module (after `publish`).
@@ -782,8 +849,10 @@ pub struct ModelState {
     pub local: HashMap<usize, usize>,
     /// modules with a local rsync copy
     pub local_modules: BTreeSet<usize>,
-    /// root CAs whose trust anchor certificate is in the store
-    pub ta_stored: BTreeSet<usize>,
+    /// trust anchor file in the local rsync copy per (root, uri index): serve state 0..3
+    pub ta_local: HashMap<(usize, usize), u8>,
+    /// stored trust anchor certificate per (root, uri index): 0 good, 1 other key, 3 expired
+    pub ta_store: HashMap<(usize, usize), u8>,
 }
 
 #[derive(Clone, Debug, Default)]
@@ -849,6 +918,39 @@ fn cert_ok(sc: &Scenario, ca: usize) -> bool {
     depth(sc, ca) <= sc.cfg.max_depth
 }
 
+/// The rsync module `m` is transferred (once per run) when first needed: on success the local copy
+/// of every CA directory and trust anchor file in it becomes what the server offers in this step.
+fn attempt_module(sc: &Scenario, step: &Step, state: &mut ModelState, attempted: &mut BTreeSet<usize>, m: usize) {
+    if attempted.contains(&m) {
+        return;
+    }
+    attempted.insert(m);
+    if step.fail_modules.contains(&m) {
+        return;
+    }
+    state.local_modules.insert(m);
+    for (j, other) in sc.cas.iter().enumerate() {
+        if other.module == m && !other.versions.is_empty() {
+            let v = step.publish.get(j).copied().unwrap_or(0).min(other.versions.len() - 1);
+            state.local.insert(j, v);
+        }
+        if other.parent.is_none() {
+            for u in 0..ta_uri_count(sc, j) {
+                if ta_location(sc, j, u).0 == m {
+                    match ta_serve_state(step, j, u) {
+                        4 => {
+                            state.ta_local.remove(&(j, u));
+                        }
+                        st => {
+                            state.ta_local.insert((j, u), st);
+                        }
+                    }
+                }
+            }
+        }
+    }
+}
+
 /// Runs the model for one step, updating `state`.
 pub fn model_step(sc_in: &Scenario, step: &Step, state: &mut ModelState) -> Expected {
     let mut sc_eff = sc_in.clone();
@@ -876,30 +978,40 @@ pub fn model_step(sc_in: &Scenario, step: &Step, state: &mut ModelState) -> Expe
             exp.skipped.insert(i);
             continue;
         }
-        // fetched view: the whole module is transferred once per run, when first needed
-        // (for a trust anchor: when its certificate is loaded)
-        let module_ok = !step.fail_modules.contains(&ca.module);
-        if !step.offline && !attempted.contains(&ca.module) {
-            attempted.insert(ca.module);
-            if module_ok {
-                state.local_modules.insert(ca.module);
-                for (j, other) in sc.cas.iter().enumerate() {
-                    if other.module == ca.module && !other.versions.is_empty() {
-                        let v = step.publish.get(j).copied().unwrap_or(0).min(other.versions.len() - 1);
-                        state.local.insert(j, v);
+        if ca.parent.is_none() {
+            // trust anchor: the TAL's URIs are tried in order; a decodable download replaces the stored
+            // copy for that URI, otherwise the stored copy is used; the first certificate that matches
+            // the TAL key and validates wins.
+            let mut found = false;
+            for u in 0..ta_uri_count(sc, i) {
+                let (m, _) = ta_location(sc, i, u);
+                if !step.offline {
+                    attempt_module(sc, step, state, &mut attempted, m);
+                }
+                let download = if step.offline { None } else { state.ta_local.get(&(i, u)).copied() };
+                let effective = match download {
+                    Some(d) if d == 0 || d == 1 || d == 3 => {
+                        state.ta_store.insert((i, u), d);
+                        Some(d)
                     }
+                    _ => state.ta_store.get(&(i, u)).copied(),
+                };
+                if step.foreign_tal_key.contains(&i) {
+                    continue;
+                }
+                if effective == Some(0) {
+                    found = true;
+                    break;
                 }
             }
-        }
-        if ca.parent.is_none() {
-            // trust anchor certificate: from the local rsync copy if a collector runs, else the stored copy
-            let from_collector = !step.offline && state.local_modules.contains(&ca.module);
-            if from_collector {
-                state.ta_stored.insert(i);
-            } else if !state.ta_stored.contains(&i) {
+            if !found {
                 exp.skipped.insert(i);
                 continue;
             }
+        }
+        // fetched view: the whole module is transferred once per run, when first needed
+        if !step.offline {
+            attempt_module(sc, step, state, &mut attempted, ca.module);
         }
         if ca.versions.is_empty() {
             exp.rejected.insert(i);
@@ -995,6 +1107,11 @@ pub fn model_step(sc_in: &Scenario, step: &Step, state: &mut ModelState) -> Expe
             .collect();
         state.local.retain(|j, _| keep.contains(&sc.cas[*j].module));
         state.local_modules.retain(|m| keep.contains(m));
+        state.ta_local.retain(|(c, u), _| keep.contains(&ta_location(sc, *c, *u).0));
+    }
+    if !sc.cfg.dirty {
+        // expired trust anchor certificates are removed from the store
+        state.ta_store.retain(|_, st| *st != 3);
     }
     // unsafe-VRP filter
     if sc.cfg.unsafe_vrps == 0 {
